@@ -121,17 +121,26 @@ def _lib_exc(kind):
     return cache[base]
 
 
+class UserStopIteration(_Tagged, StopIteration):
+    """e.g. a guard calling `next()` on an exhausted iterator: an exception like any other for the engine (iteration
+    helpers that swallow it — `all(map(...))`, `next(gen)` — must not sit between the callback and the caller)"""
+
+
 EXC_KINDS = [UserExc, UserKeyError, UserValueError, UserRuntimeError, UserExc, UserNotImplemented, UserAttributeError,
              UserLookupError, UserBaseExc, UserExc, "tna", UserTypeError, "invdef", UserAssertionError, "invstate",
-             UserOSError, UserTimeout, "tna"]
-MAX_EXC_TAG = 17
+             UserOSError, UserTimeout, "tna", UserStopIteration, UserStopIteration]
+MAX_EXC_TAG = 19
 
 
-def user_exc(tag):
-    """the exception class is a function of the tag (1..17), so a scenario replays exactly"""
+def user_exc(tag, in_coroutine=False):
+    """the exception class is a function of the tag (1..19), so a scenario replays exactly"""
     k = EXC_KINDS[tag % len(EXC_KINDS)]
     if isinstance(k, str):
         return _lib_exc(k)(tag)
+    if in_coroutine and k is UserStopIteration:
+        # (Python itself turns a StopIteration that leaves a coroutine frame into RuntimeError; on the async engine
+        # every callback, plain functions included, is called from inside one)
+        return UserExc(tag)
     return k(tag)
 
 
@@ -788,7 +797,7 @@ def make_fn(rt: Runtime, c: Cb, with_self: bool):
         if hook is not None:
             hook(c.id, tid)
         if rz is not None:
-            raise user_exc(rz)
+            raise user_exc(rz, in_coroutine=rt.scn.is_async())
         rt.lines.append(f"E {tid} {ph} {c.id} {rp(POOL[ret])}")
         return POOL[ret]
 
@@ -808,7 +817,7 @@ def make_fn(rt: Runtime, c: Cb, with_self: bool):
         for _ in range(c.yields):
             await asyncio.sleep(0)
         if rz is not None:
-            raise user_exc(rz)
+            raise user_exc(rz, in_coroutine=True)
         rt.lines.append(f"E {tid} {ph} {c.id} {rp(POOL[ret])}")
         return POOL[ret]
 
@@ -874,6 +883,20 @@ def build(scn: Scn, rt: Runtime, cls_name=None, picklable=False):
     for i, s in enumerate(states):
         ns[scn.sid(i)] = s
     tls = []
+
+    def arrow(ti, tr, **kw):
+        """the transition written in one of the equivalent builder forms: `src.to(tgt)`, `tgt.from_(src)`,
+        `s.to.itself()`, `s.from_.itself()`"""
+        form = (ti * 7 + len(scn.states) + len(scn.trans)) % 4
+        a, b = states[tr.src], states[tr.tgt]
+        if tr.src == tr.tgt and form == 1:
+            return a.to.itself(**kw)
+        if tr.src == tr.tgt and form == 2:
+            return a.from_.itself(**kw)
+        if form == 3:
+            return b.from_(a, **kw)
+        return a.to(b, **kw)
+
     for ti, tr in enumerate(scn.trans):
         kw = {g: inline(("t", ti), g) for g in ("validators", "cond", "unless", "before", "on", "after")}
         kw = {k: v for k, v in kw.items() if v is not None}
@@ -883,7 +906,7 @@ def build(scn: Scn, rt: Runtime, cls_name=None, picklable=False):
             tl = states[tr.tgt].from_.any(**kw)
             ns[EVENTS[tr.events[0]]] = tl
         elif scn.alias_sub and tr.events == [scn.alias_sub[1]]:
-            tl = states[tr.src].to(states[tr.tgt], **kw)
+            tl = arrow(ti, tr, **kw)
             e1 = EVENTS[scn.alias_sub[0]]
             ns[e1] = (ns[e1] | tl) if e1 in ns else tl
         elif scn.decl_style == "placeholder" and not scn.alias_sub and not any(t.any for t in scn.trans):
@@ -892,11 +915,11 @@ def build(scn: Scn, rt: Runtime, cls_name=None, picklable=False):
             for e in tr.events:
                 if EVENTS[e] not in ns:
                     ns[EVENTS[e]] = Event() if e % 2 else Event(name=f"Display {e}")
-            tl = states[tr.src].to(states[tr.tgt], event=[ns[EVENTS[e]] for e in tr.events], **kw)
+            tl = arrow(ti, tr, event=[ns[EVENTS[e]] for e in tr.events], **kw)
         elif scn.decl_style == "spaced":
-            tl = states[tr.src].to(states[tr.tgt], event=" ".join(EVENTS[e] for e in tr.events), **kw)
+            tl = arrow(ti, tr, event=" ".join(EVENTS[e] for e in tr.events), **kw)
         else:
-            tl = states[tr.src].to(states[tr.tgt], event=[EVENTS[e] for e in tr.events], **kw)
+            tl = arrow(ti, tr, event=[EVENTS[e] for e in tr.events], **kw)
         tls.append(tl)
     # decorators
     for c in scn.cbs:
@@ -918,6 +941,10 @@ def build(scn: Scn, rt: Runtime, cls_name=None, picklable=False):
             fn = POOL[attr_value(scn, c)]
         else:
             fn = make_fn(rt, c, with_self=not (hooks and c.provider.startswith("L")))
+        if c.wrap == "prop" and c.style in ("conv", "name") and not (hooks and c.provider.startswith("L")):
+            # a delegation facade: the provider exposes the callback through a property that returns the callable
+            import types
+            fn = property(lambda me, _f=fn: types.MethodType(_f, me))
         if c.provider == "machine":
             ns[c.name] = fn
         elif c.provider == "model":
